@@ -8,6 +8,7 @@ package absnfs
 import (
 	"container/list"
 	"os"
+	"strings"
 	"sync"
 	"sync/atomic"
 	"time"
@@ -307,6 +308,21 @@ func (c *AttrCache) Invalidate(path string) {
 
 	c.removeFromAccessLog(path)
 	delete(c.cache, path)
+}
+
+// InvalidateTree removes the entry for dirPath and every entry below it.
+// Used when a directory is renamed or replaced: all cached paths under it change meaning.
+func (c *AttrCache) InvalidateTree(dirPath string) {
+	c.mu.Lock()
+	defer c.mu.Unlock()
+
+	prefix := strings.TrimSuffix(dirPath, "/") + "/"
+	for path := range c.cache {
+		if path == dirPath || strings.HasPrefix(path, prefix) {
+			c.removeFromAccessLog(path)
+			delete(c.cache, path)
+		}
+	}
 }
 
 // Clear removes all entries from the cache
@@ -625,6 +641,20 @@ func (c *DirCache) Invalidate(path string) {
 
 	c.removeFromAccessList(path)
 	delete(c.entries, path)
+}
+
+// InvalidateTree removes the listing of dirPath and of every directory below it
+func (c *DirCache) InvalidateTree(dirPath string) {
+	c.mu.Lock()
+	defer c.mu.Unlock()
+
+	prefix := strings.TrimSuffix(dirPath, "/") + "/"
+	for path := range c.entries {
+		if path == dirPath || strings.HasPrefix(path, prefix) {
+			c.removeFromAccessList(path)
+			delete(c.entries, path)
+		}
+	}
 }
 
 // Clear removes all entries from the cache
